@@ -23,7 +23,7 @@ ANCHORS = [("leuvenmapmatching/map/base.py", "BaseMap.use_latlon"),
            ("leuvenmapmatching/util/dist_latlon.py", "distance_point_to_segment"),
            ("leuvenmapmatching/util/dist_latlon.py", "distance")]
 FLOORS = {"pairs_compared": 1200, "complete_matches_compared": 900, "family:simple": 300, "family:simple_nodes": 300, "family:distance": 300,
-          "southern_hemisphere": 300, "high_latitude": 150, "straddles_antimeridian": 60, "linked_map_pairs": 600, "sqlite_pairs": 500, "linked_map_pairs_with_links": 200}
+          "southern_hemisphere": 300, "high_latitude": 150, "straddles_antimeridian": 60, "linked_map_pairs": 600, "sqlite_pairs": 500, "metric_selected_after_matcher_creation": 300, "linked_map_pairs_with_links": 200}
 ASSUMPTIONS = ["index must be equal; best log-probability within 1e-2*max(1,|x|) (the 0.1 m noise floor of the cross-/along-track formulation, "
                "propagated through d*delta/sigma^2 per step); finer errors of the geodesic primitives are C14's business",
                "node-and-edge mode decides 'edge or end node' by the relative position with an absolute 1e-8 tolerance: cases in which an "
@@ -157,6 +157,8 @@ def gen_case(rng, i, tier):
     if build.sqlite_ok(case["map"]) and rng.random() < 0.3:
         # both siblings on SqliteMap (all three state families: coordinates and candidates come out of the database)
         case["sqlite"] = True
+    if rng.random() < 0.12:
+        case["late_metric"] = True
     return case
 
 
@@ -167,11 +169,17 @@ def place(case):
     m["nodes"] = [[l, [q[0], q[1]]] for l, q in zip(labs, ll)]
     m["latlon"] = True
     tl = rg.ae_place(case["center"], [(p[0], p[1]) for p in case["trace"]])
-    return {"map": m, "trace": [[q[0], q[1]] for q in tl], "cfg": case["cfg"]}
+    return {"map": m, "trace": [[q[0], q[1]] for q in tl], "cfg": case["cfg"], "late_metric": bool(case.get("late_metric"))}
 
 
 def run(case):
-    mt = build.make_matcher(build.make_inmem(case["map"]), case["cfg"])
+    if case.get("late_metric") and case["map"].get("latlon"):
+        # the metric of the map is selected AFTER the matcher object was created (use_latlon is a settable property)
+        mp = build.make_inmem({**case["map"], "latlon": False})
+        mt = build.make_matcher(mp, case["cfg"])
+        mp.use_latlon = True
+    else:
+        mt = build.make_matcher(build.make_inmem(case["map"]), case["cfg"])
     r = mt.match(build.trace(case["trace"]))
     return mt, build.canon(mt, r)
 
@@ -181,6 +189,8 @@ def check_case(ctx, case):
         return check_links(ctx, case)
     if case.get("sqlite"):
         ctx.count("sqlite_pairs")
+    if case.get("late_metric"):
+        ctx.count("metric_selected_after_matcher_creation")
     with build.sqlite_backend(bool(case.get("sqlite")), ctx.scratch):
         return _check_case(ctx, case)
 
@@ -278,6 +288,8 @@ def replay_case(ctx, wit):
         case["center"] = wit["center"]
         if wit.get("sqlite"):
             case["sqlite"] = True
+        if (wit.get("latlon") or {}).get("late_metric"):
+            case["late_metric"] = True
         case.setdefault("cls", wit["planar"].get("cls"))
         return check_case(ctx, case)
     return check_case(ctx, wit)
